@@ -217,7 +217,7 @@ func (p *untypedParamBinder) Bind(request *http.Request, routeParams RouteParams
 			file, header, ffErr := request.FormFile(p.parameter.Name)
 			if ffErr != nil {
 				if p.parameter.Required {
-					return errors.NewParseError(p.Name, p.parameter.In, "", ffErr)
+					return errors.Required(p.Name, p.parameter.In, nil)
 				}
 
 				return nil
